@@ -122,6 +122,15 @@ def run_ops(model, objs, ops):
             b = op[2]
             model.add_knowledge(objs[op[1]], world=(float(sx.q(b[0])), float(sx.q(b[1]))))
             res.append([dump(objs)])
+        elif t == 16:
+            import io, contextlib
+            with contextlib.redirect_stdout(io.StringIO()):
+                model.print()
+                model.print(params=True)
+            for o in objs:
+                if o is not None:
+                    o.state(); o.is_contradiction(); o.get_data()
+            res.append([dump(objs)])
         elif t == 13:
             model.add_knowledge(objs[op[1]])
             res.append([dump(objs)])
